@@ -158,16 +158,13 @@ Definition quota_ok (keyfn : bytes -> option addr) (burst rnum rden elapsed : Z)
 Definition judge (c : case) : verdict :=
   match c with
   | KeyCase a obs =>
+    (* finding C34-1 is fixed: a zoned address without a key is a violation again *)
     if key_matches (spec_ip_key a) obs then
-      (if key_matches (impl_ip_key a) obs then VOk
-       else if zone_trigger a then VOk          (* the recorded defect is gone *)
-       else VMismatch)
-    else if zone_trigger a && key_matches (impl_ip_key a) obs then VKnown 1
+      (if key_matches (impl_ip_key a) obs then VOk else VMismatch)
     else VViolation
   | QuotaCase burst rnum rden elapsed reqs =>
-    if quota_ok spec_ip_key burst rnum rden elapsed reqs then VOk
-    else if existsb (fun r => zone_trigger (fst (fst r))) reqs
-            && quota_ok impl_ip_key burst rnum rden elapsed reqs then VKnown 1
+    if quota_ok spec_ip_key burst rnum rden elapsed reqs then
+      (if quota_ok impl_ip_key burst rnum rden elapsed reqs then VOk else VMismatch)
     else VViolation
   | LimCase pps bps window evs obs obs_p obs_b fin_p fin_b =>
     let l0 := new_limiter pps bps window in
